@@ -206,6 +206,13 @@ func (fr *frame) callStatic(st *State, fn *ssa.Function, args []Val, free []Val,
 	if h := u.E.intrinsic(fn); h != nil {
 		return h(fr, st, fn, args, pos)
 	}
+	// an assumed contract declared by the CALLER's package on a function of another package takes precedence over
+	// that function's own contract: a package may name a dependency's behaviour abstractly (listed as assumed)
+	if fn.Pkg != nil && u.Fn.Pkg != nil && fn.Pkg != u.Fn.Pkg {
+		if bc := u.E.externFor(u.Fn, fnKey(fn)); bc != nil {
+			return resultVal(u, sig, fr.applyContract(st, bc, args, pos, fnKey(fn)))
+		}
+	}
 	if bc := u.E.contractFor(fn); bc != nil && !bc.Inline && !(u.specMode > 0 && bc.Pure) {
 		return resultVal(u, sig, fr.applyContract(st, bc, args, pos, fnKey(fn)))
 	}
@@ -570,6 +577,12 @@ func (fr *frame) applyContract(st *State, bc *BoundContract, args []Val, pos tok
 			v = a
 			if _, isIface := rt.Underlying().(*types.Interface); isIface {
 				v = &IfaceV{Tag: c.Var(u.freshName("r_"+bc.FC.Name+".tag"), BV(32)), Ptr: a}
+			}
+			if _, isSlice := rt.Underlying().(*types.Slice); isSlice {
+				// a freshly allocated backing array of unknown contents, length and capacity
+				sv := &SliceV{Base: a, Off: c.BVu(0, 64), Len: c.Var(u.freshName("r_"+bc.FC.Name+".len"), BV(64)), Cap: c.Var(u.freshName("r_"+bc.FC.Name+".cap"), BV(64))}
+				u.assumeGlobal(c.And(c.ULe(sv.Len, sv.Cap), c.ULe(sv.Cap, c.BVu(maxLen, 64))))
+				v = sv
 			}
 		} else {
 			v = u.symVal(u.freshName("r_"+bc.FC.Name), rt, false)
